@@ -440,6 +440,7 @@ func checkC18(ctx *Ctx, r *Report) {
 	c18NilnessOfCollections(ctx, r)
 	c18NilnessSelfTest(ctx, r)
 	c18SpreadFieldsCopied(ctx, r)
+	c18ReferredEnumMembersCopied(ctx, r)
 	c18FourthHunt(ctx, r)
 }
 
@@ -1557,6 +1558,8 @@ func plain(d ast.DisjunctionType) bool {
 // Same for the value type of an array rebuilt from an existing one.
 func c18SpreadFieldsCopied(ctx *Ctx, r *Report) {
 	n := 0
+	spreading := map[*ast.FuncDecl]bool{}
+	defer func() { c18DuplicateHintsCopied(ctx, r, spreading) }()
 	ctx.AllFuncDecls(func(p *packages.Package, fd *ast.FuncDecl, obj *types.Func) {
 		if fd.Body == nil || !strings.HasSuffix(p.PkgPath, "/internal/ast/compiler") {
 			return
@@ -1589,7 +1592,10 @@ func c18SpreadFieldsCopied(ctx *Ctx, r *Report) {
 				}
 			}
 			n++
-			copied := strings.Contains(exprString(operand), "DeepCopy()")
+			copied := strings.Contains(exprString(operand), "DeepCopy()") || c18RootIsADeepCopy(info, fd, operand)
+			if fn.Name() == "NewStruct" {
+				spreading[fd] = true
+			}
 			r.Check(copied, "copycheck/spread-fields-copied", fmt.Sprintf("%s builds a type from the %s of %s", ctx.FuncName(obj), what, exprString(operand)), c.Pos(), "the "+what+" are duplicated first",
 				fmt.Sprintf("%s builds a new type from %s as it is: the new type shares the field slice and every type below it with the original — with `A: Base; B: Base` both aliases get the same *RefType for `target`, and a later pass (PrefixObjectNames) renames it once through each: PA.target refers to PPTarget, which does not exist", ctx.FuncName(obj), exprString(operand)))
 			return true
@@ -1924,4 +1930,203 @@ func c18HintedBranchesVisited(ctx *Ctx, r *Report) {
 		r.Count("renaming passes that rewrite the hinted disjunction", passes)
 		r.Floor("renaming passes that rewrite the hinted disjunction", 2)
 	}
+}
+
+// c18RootIsADeepCopy: the expression is a selector chain rooted at a local variable whose one definition in the function
+// is `v := <expr>.DeepCopy()`.
+func c18RootIsADeepCopy(info *types.Info, fd *ast.FuncDecl, e ast.Expr) bool {
+	root := ast.Unparen(e)
+	for {
+		switch x := root.(type) {
+		case *ast.SelectorExpr:
+			root = ast.Unparen(x.X)
+			continue
+		case *ast.CallExpr:
+			if sel, ok := ast.Unparen(x.Fun).(*ast.SelectorExpr); ok {
+				root = ast.Unparen(sel.X)
+				continue
+			}
+		case *ast.IndexExpr:
+			root = ast.Unparen(x.X)
+			continue
+		}
+		break
+	}
+	id, ok := root.(*ast.Ident)
+	if !ok {
+		return false
+	}
+	obj := info.Uses[id]
+	if obj == nil {
+		return false
+	}
+	defs, copies := 0, 0
+	ast.Inspect(fd.Body, func(m ast.Node) bool {
+		as, ok := m.(*ast.AssignStmt)
+		if !ok || len(as.Lhs) != len(as.Rhs) {
+			return true
+		}
+		for i, l := range as.Lhs {
+			lid, ok := l.(*ast.Ident)
+			if !ok || (info.Defs[lid] != obj && info.Uses[lid] != obj) {
+				continue
+			}
+			defs++
+			if c, ok := ast.Unparen(as.Rhs[i]).(*ast.CallExpr); ok {
+				if sel, ok := ast.Unparen(c.Fun).(*ast.SelectorExpr); ok && sel.Sel.Name == "DeepCopy" {
+					copies++
+				}
+			}
+		}
+		return true
+	})
+	return defs == 1 && copies == 1
+}
+
+// c18DuplicateHintsCopied: a function that builds a struct from the (copied) fields of an existing one makes a duplicate
+// of it; the hints it gives the duplicate (`for k, v := range X.Hints { dup.Hints[k] = v }`) hold types too — the union a
+// struct was generated from, with its branches and mapping: they have to be taken from the copy, not from the original.
+func c18DuplicateHintsCopied(ctx *Ctx, r *Report, spreading map[*ast.FuncDecl]bool) {
+	n := 0
+	ctx.AllFuncDecls(func(p *packages.Package, fd *ast.FuncDecl, obj *types.Func) {
+		if !spreading[fd] {
+			return
+		}
+		info := p.TypesInfo
+		ast.Inspect(fd.Body, func(m ast.Node) bool {
+			rs, ok := m.(*ast.RangeStmt)
+			if !ok || rs.Value == nil {
+				return true
+			}
+			src, ok := ast.Unparen(rs.X).(*ast.SelectorExpr)
+			if !ok || src.Sel.Name != "Hints" {
+				return true
+			}
+			val, ok := rs.Value.(*ast.Ident)
+			if !ok {
+				return true
+			}
+			stores := false
+			ast.Inspect(rs.Body, func(q ast.Node) bool {
+				if as, ok := q.(*ast.AssignStmt); ok && len(as.Lhs) == 1 && len(as.Rhs) == 1 {
+					if ix, ok := ast.Unparen(as.Lhs[0]).(*ast.IndexExpr); ok {
+						if s, ok := ast.Unparen(ix.X).(*ast.SelectorExpr); ok && s.Sel.Name == "Hints" {
+							if rid, ok := ast.Unparen(as.Rhs[0]).(*ast.Ident); ok && info.Uses[rid] == info.Defs[val] {
+								stores = true
+							}
+						}
+					}
+				}
+				return true
+			})
+			if !stores {
+				return true
+			}
+			n++
+			copied := strings.Contains(exprString(rs.X), "DeepCopy()") || c18RootIsADeepCopy(info, fd, rs.X)
+			r.Check(copied, "copycheck/duplicate-hints-copied", fmt.Sprintf("%s gives the hints of %s to the duplicate it builds", ctx.FuncName(obj), exprString(src.X)), rs.Pos(), "the hints are taken from a deep copy",
+				fmt.Sprintf("%s duplicates a struct (its fields are copied) and gives the duplicate the hints of the original by assignment: the union kept under disjunction_of_refs — branches, mapping, *RefType — is shared by every duplicate. With `X: A | B; Y: A | B` (Java chain) then PrefixObjectNames{P}, the branches in the hints of PX and PY refer to PPA / PPB, which do not exist", ctx.FuncName(obj)))
+			return true
+		})
+	})
+	r.Count("duplicates given the hints of their original", n)
+	r.Floor("duplicates given the hints of their original", 1)
+}
+
+// c18ReferredEnumMembersCopied: a pass that makes a new enum out of the members of an enum it reached through a reference
+// (`Level | "off"` → enum low, high, off) appends copies of these members: an EnumValue holds a *ScalarType and a map of
+// hints.
+func c18ReferredEnumMembersCopied(ctx *Ctx, r *Report) {
+	n := 0
+	ctx.AllFuncDecls(func(p *packages.Package, fd *ast.FuncDecl, obj *types.Func) {
+		if fd.Body == nil || !strings.HasSuffix(p.PkgPath, "/internal/ast/compiler") {
+			return
+		}
+		info := p.TypesInfo
+		// variables holding what a reference resolves to
+		resolved := map[types.Object]bool{}
+		ast.Inspect(fd.Body, func(m ast.Node) bool {
+			as, ok := m.(*ast.AssignStmt)
+			if !ok || len(as.Rhs) != 1 {
+				return true
+			}
+			c, ok := ast.Unparen(as.Rhs[0]).(*ast.CallExpr)
+			if !ok {
+				return true
+			}
+			f := callee(info, c)
+			if f == nil || !(strings.HasPrefix(f.Name(), "Resolve") || strings.HasPrefix(f.Name(), "Locate")) {
+				return true
+			}
+			if id, ok := as.Lhs[0].(*ast.Ident); ok {
+				if o := objOf(info, id); o != nil {
+					resolved[o] = true
+				}
+			}
+			return true
+		})
+		if len(resolved) == 0 {
+			return
+		}
+		ast.Inspect(fd.Body, func(m ast.Node) bool {
+			rs, ok := m.(*ast.RangeStmt)
+			if !ok || rs.Value == nil {
+				return true
+			}
+			if sl, ok := info.TypeOf(rs.X).Underlying().(*types.Slice); !ok || namedName(sl.Elem()) != "EnumValue" {
+				return true
+			}
+			root := ast.Unparen(rs.X)
+			for {
+				switch x := root.(type) {
+				case *ast.SelectorExpr:
+					root = ast.Unparen(x.X)
+					continue
+				case *ast.CallExpr:
+					if sel, ok := ast.Unparen(x.Fun).(*ast.SelectorExpr); ok {
+						root = ast.Unparen(sel.X)
+						continue
+					}
+				}
+				break
+			}
+			rid, ok := root.(*ast.Ident)
+			if !ok || !resolved[info.Uses[rid]] {
+				return true
+			}
+			member, ok := rs.Value.(*ast.Ident)
+			if !ok {
+				return true
+			}
+			ast.Inspect(rs.Body, func(q ast.Node) bool {
+				c, ok := q.(*ast.CallExpr)
+				if !ok {
+					return true
+				}
+				if id, ok := ast.Unparen(c.Fun).(*ast.Ident); !ok || id.Name != "append" || len(c.Args) < 2 {
+					return true
+				}
+				for _, a := range c.Args[1:] {
+					text := exprString(a)
+					usesMember := false
+					ast.Inspect(a, func(z ast.Node) bool {
+						if id, ok := z.(*ast.Ident); ok && info.Uses[id] == info.Defs[member] {
+							usesMember = true
+						}
+						return true
+					})
+					if !usesMember {
+						continue
+					}
+					n++
+					r.Check(strings.Contains(text, "DeepCopy()"), "copycheck/referred-enum-members-copied", fmt.Sprintf("%s keeps the members of an enum it reached through a reference", ctx.FuncName(obj)), c.Pos(), "as deep copies",
+						fmt.Sprintf("%s appends the members of the enum a reference resolves to as they are: `Level: \"low\" | \"high\"; LevelOrOff: Level | \"off\"` gives LevelOrOff members that share their *ScalarType and their hints map with those of Level — what a later pass does to the members of one shows in the other", ctx.FuncName(obj)))
+				}
+				return true
+			})
+			return true
+		})
+	})
+	r.Count("enums made from the members of a referred enum", n)
+	r.Floor("enums made from the members of a referred enum", 1)
 }
